@@ -344,6 +344,22 @@ where
         self.remainders.element_bits()
     }
 
+    /// Verification hook (only with `--cfg pdatastructs_verif`): read-only dump of all slots as
+    /// `(is_occupied, is_continuation, is_shifted, remainder)`.
+    #[cfg(pdatastructs_verif)]
+    pub fn verif_slots(&self) -> Vec<(bool, bool, bool, u64)> {
+        (0..self.is_occupied.len())
+            .map(|i| {
+                (
+                    self.is_occupied[i],
+                    self.is_continuation[i],
+                    self.is_shifted[i],
+                    self.remainders.get(i as u64) as u64,
+                )
+            })
+            .collect()
+    }
+
     fn calc_quotient_remainder(&self, obj: &T) -> (usize, usize) {
         let bits_remainder = self.bits_remainder();
         let fingerprint = self.buildhasher.hash_one(obj);
